@@ -5,6 +5,7 @@ use serde_json::Value as J;
 
 pub mod targets;
 pub mod c02;
+pub mod c03;
 pub mod c05;
 pub mod c07;
 pub mod c10;
@@ -21,6 +22,7 @@ pub fn level_of(id: &str) -> &'static str {
 pub fn run(ctx: &Ctx) -> bool {
     match ctx.id.as_str() {
         "C02" => c02::run(ctx),
+        "C03" => c03::run(ctx),
         "C05" => c05::run(ctx),
         "C07" => c07::run(ctx),
         "C10" => c10::run(ctx),
@@ -34,6 +36,7 @@ pub fn run(ctx: &Ctx) -> bool {
 pub fn replay(ctx: &Ctx, id: &str, kind: &str, case: &J) -> Vec<Fail> {
     match id {
         "C02" => c02::replay(ctx, kind, case),
+        "C03" => c03::replay(ctx, kind, case),
         "C05" => c05::replay(ctx, kind, case),
         "C07" => c07::replay(ctx, kind, case),
         "C10" => c10::replay(ctx, kind, case),
